@@ -17,12 +17,11 @@ MUTATORS = {"append", "remove", "extend", "pop", "insert", "add", "discard", "cl
 def loop_ordinal(ex: Any, node: ast.AST, st: Any = None) -> int:
     """Pre-order ordinal of a loop inside the function currently executed (top frame)."""
     root = (st.fi if st is not None else ex.fi).node
-    k = 0
-    for n in ast.walk(root):
-        if isinstance(n, (ast.For, ast.While)):
-            k += 1
-            if n is node:
-                return k
+    loops = sorted((n for n in ast.walk(root) if isinstance(n, (ast.For, ast.While))),
+                   key=lambda n: (n.lineno, n.col_offset))
+    for k, n in enumerate(loops, 1):
+        if n is node:
+            return k
     return -1
 
 
@@ -56,22 +55,29 @@ def havoc_value(ex: Any, v: V, name: str, st: State) -> Tuple[Optional[V], State
 
 
 def heap_havoc(ex: Any, body: List[ast.stmt], st: State) -> State:
-    """Havoc the heap components the loop body can write (syntactic over-approximation)."""
-    mut_lists = False
+    """Havoc the heap components the loop body can write (syntactic over-approximation).  Mutator calls whose receiver is a
+    plain local name bound to a list are havoc'd *at that list's address only*; anything else havocs whole components."""
+    mut_all = False
+    mut_names: Set[str] = set()
     attrs: Set[str] = set()
-    callee_mods: Set[str] = set()
     for s in body:
         for n in ast.walk(s):
             if isinstance(n, ast.Call) and isinstance(n.func, ast.Attribute) and n.func.attr in MUTATORS:
-                mut_lists = True
+                if isinstance(n.func.value, ast.Name) and isinstance(st.env.get(n.func.value.id), VList):
+                    mut_names.add(n.func.value.id)
+                else:
+                    mut_all = True
             if isinstance(n, ast.Attribute) and isinstance(n.ctx, ast.Store):
                 attrs.add(n.attr)
             if isinstance(n, ast.Subscript) and isinstance(n.ctx, ast.Store):
-                mut_lists = True
-            if isinstance(n, ast.AugAssign):
-                mut_lists = True
-    for c in ex.registry.values():
-        pass
+                if isinstance(n.value, ast.Name) and isinstance(st.env.get(n.value.id), VList):
+                    mut_names.add(n.value.id)
+                elif isinstance(n.value, ast.Name) and isinstance(st.env.get(n.value.id), VDict):
+                    pass  # value-semantics dict: rebinding, handled as a variable
+                else:
+                    mut_all = True
+            if isinstance(n, ast.AugAssign) and isinstance(n.target, ast.Name) and isinstance(st.env.get(n.target.id), VList):
+                mut_names.add(n.target.id)
     st = st.copy()
     for key in list(st.heap.keys()) + list(ex.known_heap_keys):
         cur = st.heap.get(key)
@@ -79,10 +85,23 @@ def heap_havoc(ex: Any, body: List[ast.stmt], st: State) -> State:
             cur = ex.known_heap_keys.get(key)
             if cur is None:
                 continue
-        hit = (key.startswith("L.") and mut_lists) or any(key.startswith("F:") and key.split(".", 1)[1].split("#")[0] in
-                                                          {a, "_" + a} for a in attrs) or key in ex.loop_extra_havoc
+        hit = (key.startswith("L.") and mut_all) or any(key.startswith("F:") and key.split(".", 1)[1].split("#")[0] in
+                                                        {a, "_" + a} for a in attrs) or key in ex.loop_extra_havoc
         if hit:
             st.heap[key] = z3.Const(fresh_name(f"H<{key}>"), cur.sort())
+    if not mut_all:
+        for nm in sorted(mut_names):
+            l = st.env[nm]
+            st = ex.forget_len(l, st)
+            ln = ex._len_arr(st)
+            st.heap["L.len"] = z3.Store(ln, l.ref, z3.Int(fresh_name(f"hl_{nm}")))
+            if l.view == "seq":
+                key, el = ex._elem_arr(st, l.elem)
+                st.heap[key] = z3.Store(el, l.ref, z3.Const(fresh_name(f"he_{nm}"), el.sort().range()))
+            else:
+                key, bg = ex._bag_arr(st, l.elem)
+                st.heap[key] = z3.Store(bg, l.ref, z3.Const(fresh_name(f"hb_{nm}"), bg.sort().range()))
+            st.pc.append(z3.Select(st.heap["L.len"], l.ref) >= 0)
     return st
 
 
@@ -142,6 +161,8 @@ def unrolled(ex: Any, s: ast.For, items: List[V], i: int, st: State) -> Iterator
 def invariant_loop(ex: Any, s: Any, st: State, invs: List[Any], it: Optional[VList]) -> Iterator[Tuple[str, Any, State]]:
     is_for = isinstance(s, ast.For)
     where = f"{ex.fi.file}:{s.lineno}"
+    if is_for:
+        st = st.assume(ex.list_len(it, st).term >= 0)   # lengths are non-negative
     # 1. entry
     extra0: Dict[str, Any] = {}
     if is_for:
